@@ -167,13 +167,41 @@ def shared_components(e, seed, dseed):
     return bad, True
 
 
-def compare(e, est, fresh, last, ref, what):
+def reconfigured(e1, e2, seed, dseed):
+    """History with a change of hyper-parameters: an instance configured as menu entry e1 is fitted and observed,
+    then given ALL the parameters of entry e2 (same class) through set_params and fitted again on other data.
+    It must now be the model a fresh e2 instance gives: the parameters that count are the current ones."""
+    import numpy
+    rng = random.Random(dseed)
+    XA, yA, wA = _menu.make_data(e1.data, rng, 0)
+    XB, yB, wB = _menu.make_data(e2.data, rng, 1)
+    est = e1.factory()
+    numpy.random.seed(seed)
+    _menu.call_fit(est, XA, yA, wA)
+    observe_all(est, e1, XA, yA, seed + 100)
+    Xq, yq = unseen_query(e1, XA, yA)
+    observe_all(est, e1, Xq, yq, seed + 101)
+    target = e2.factory()
+    est.set_params(**target.get_params(deep=False))
+    numpy.random.seed(seed + 1)
+    _menu.call_fit(est, XB, yB, wB)
+    last = observe_all(est, e2, XB, yB, seed + 100)
+    fresh = e2.factory()
+    numpy.random.seed(seed + 1)
+    _menu.call_fit(fresh, XB, yB, wB)
+    ref = observe_all(fresh, e2, XB, yB, seed + 100)
+    return est, fresh, last, ref
+
+
+def compare(e, est, fresh, last, ref, what, state=True):
     bad = []
     for (ob, a), (_, b) in zip(last, ref):
         if a != b:
             bad.append(("%s:%s:observer-differs:%s" % (e.cls, what, ob.replace("_xy", "")),
                         "%s: output of %s differs from a fresh instance fitted on the same data" % (what, ob),
                         "outputs differ", "identical outputs"))
+    if not state:
+        return bad
     sa, sb = fitted_state(est), fitted_state(fresh)
     extra = sorted(set(sa) - set(sb))
     missing = sorted(set(sb) - set(sa))
@@ -349,6 +377,24 @@ def search(ctx, hints):
             nontriv.add((e.name, "int-random_state"))
             add(bad, {"entry": e.name, "kind": "seed-independence", "variants": [0], "seed": s1, "seed2": s2,
                       "dseed": dseed})
+    # histories with a change of hyper-parameters between two fits (pairs of menu entries of the same class)
+    menu = [m for m in _menu.build_menu() if not m.slow or ctx.thorough]
+    for e1 in menu:
+        for e2 in menu:
+            if e1 is e2 or e1.cls != e2.cls or e1.data != e2.data or not e2.seeded or e1.cls in SHARES_BY_DESIGN:
+                continue
+            seed = ctx.rng.randrange(1 << 30)
+            dseed = ctx.rng.randrange(1 << 30)
+            evals += 1
+            try:
+                est, fresh, last, ref = reconfigured(e1, e2, seed, dseed)
+            except Exception:  # noqa: BLE001  (set_params / fit failing here is the business of C01 / C02)
+                continue
+            nontriv.add((e1.name, e2.name, "reconfigured"))
+            # after a change of hyper-parameters only what observers return is compared: attributes that the new
+            # configuration never reads (e.g. the leaf regressions of a former criterion='mselin') are not observable
+            add(compare(e2, est, fresh, last, ref, "reconfigured", state=False),
+                {"entry": e1.name, "entry2": e2.name, "kind": "reconfigured", "variants": [0, 1], "seed": seed, "dseed": dseed})
     return list(vs.values()), {"evaluations": evals, "distinct_nontrivial": len(nontriv), "samples": samples,
                                "explanations_of_rejected_skeletons": explain(ctx)}
 
@@ -391,6 +437,10 @@ def replay(ctx, item):
         bad = seed_independence(e, inp["seed"], inp["seed2"], inp["dseed"])
     elif inp["kind"] == "shared-components":
         bad, _ = shared_components(e, inp["seed"], inp["dseed"])
+    elif inp["kind"] == "reconfigured":
+        e2 = {m.name: m for m in _menu.build_menu()}[inp["entry2"]]
+        est, fresh, last, ref = reconfigured(e, e2, inp["seed"], inp["dseed"])
+        bad = compare(e2, est, fresh, last, ref, "reconfigured", state=False)
     else:
         est, fresh, last, ref = history(e, tuple(inp["variants"]), inp["seed"], inp["dseed"])
         bad = compare(e, est, fresh, last, ref, "refit" if inp["kind"] == "refit" else "same-global-seed")
